@@ -350,6 +350,48 @@ def not_found_from_errors(facts, rep, rule, D):
     return n
 
 
+def not_supported_from_errors(facts, rep, rule, D):
+    """R20.10: `NotSupported` makes the caller take another route (the generic copy / move of the path type).  Answering it *because a
+    call failed* is sound only when that call is one OS primitive that either happened or did not (`fs::rename` in the physical
+    move_dir); where the failed call is an operation of this crate — a path-type move through an adapter, which may have done
+    half of its work — the retry runs on what the failed attempt left behind and the caller gets Ok"""
+    n = 0
+    inter = D.inter
+    for b in facts.bodies:
+        if b.file.startswith("src/test_macros") or "::tests::" in b.id:
+            continue
+        for blk in b.blocks:
+            if blk.cleanup:
+                continue
+            for st in blk.stmts:
+                if not (st.kind == "assign" and st.rv.kind == "agg" and st.rv.agg.get("adt") == "error::VfsErrorKind" and
+                        st.rv.agg.get("variant") == "NotSupported"):
+                    continue
+                failed = []
+                for g in D.guards(b, blk.idx):
+                    x = None
+                    if g[0] == "bool" and g[1][0] == "call" and g[1][1] in ("Result::is_err", "Result::is_ok") and g[1][2] and \
+                            g[2] is (g[1][1] == "Result::is_err"):
+                        x = g[1][2][0]
+                    if g[0] == "variant" and g[2] == "err":
+                        x = g[1]
+                    if x is None:
+                        continue
+                    while x[0] in ("await", "okval", "errval") or (x[0] == "call" and isinstance(x[1], str) and short(x[1]) in ("Try::branch", "IntoFuture::into_future")):
+                        x = x[1] if x[0] != "call" else x[2][0]
+                    if x[0] == "call" and isinstance(x[1], str):
+                        hb = inter.body_of_call(x)
+                        sb = facts.body(x[3][0]) if len(x) > 3 and x[3] else None
+                        tfn = sb.blocks[x[3][1]].term.func.fn if sb is not None and sb.blocks[x[3][1]].term.func.kind == "fn" else None
+                        if hb is not None or (tfn is not None and tfn.get("crate") == facts.crate):
+                            failed.append(short(x[1]))
+                n += 1
+                rep.ob(rule, D.owner_id(b), "NotSupported is not the answer to a failed operation of this crate", not failed, "" if not failed else
+                       "%s answers NotSupported because %s failed: the caller's generic route then runs on whatever the failed attempt left "
+                       "behind and reports success" % (b.id, failed[0]), st.line)
+    return n
+
+
 def tolerated_kind_sites(facts, rep, rule, D):
     """who may construct the kind create_dir_all swallows: `VfsErrorKind::DirectoryExists` is built only inside a backend's
     create_dir (where Tables M/U/O tie it to a positive directory test) — not in an error conversion, a wrapper or any
@@ -429,6 +471,8 @@ def run(facts, rep, tier, ctx):
     rep.floor("tolerated-kind construction sites", k, 6)
     k2 = tolerated_kind_sites(facts, rep, "R20.6", D)
     not_found_from_errors(facts, rep, "R20.9", D)
+    k10 = not_supported_from_errors(facts, rep, "R20.10", D)
+    rep.floor("NotSupported construction sites judged (R20.10)", k10, 10)
     rep.floor("DirectoryExists construction sites (whole crate)", k2, 6)
     # R20.7 the async walk: a failed per-entry future is not kept in its slot (polling it again panics), an error item is
     # yielded once (typestate of poll_next, shared with C15 R15.4)
